@@ -452,8 +452,9 @@ def make_script(sid, word, model, scale, seed, **kw):
     return sc
 
 
-def run_scripts(scripts, wd, tag):
-    """execute scripts with the adapter (in parallel chunks); returns {id: events}"""
+def run_scripts(scripts, wd, tag, binary=None, hook_trace=None):
+    """execute scripts with the adapter (in parallel chunks); returns {id: events}.  With hook_trace (a list) and a
+    hooked adapter binary, every adapter process also writes the crate's own hook trace; the files are appended to it."""
     n = len(scripts)
     if n == 0:
         return {}
@@ -466,7 +467,14 @@ def run_scripts(scripts, wd, tag):
         with open(ip, "w") as f:
             for sc in ch:
                 f.write(json.dumps(sc) + "\n")
-        procs.append((subprocess.Popen([STUNH, "agent", ip, op], stderr=subprocess.PIPE, text=True), ip, op))
+        env = dict(os.environ)
+        if hook_trace is not None:
+            hp = os.path.join(wd, "%s.%d.hook" % (tag, ci))
+            if os.path.exists(hp):
+                os.remove(hp)
+            env["STUN_VERIF_TRACE"] = hp
+            hook_trace.append(hp)
+        procs.append((subprocess.Popen([binary or STUNH, "agent", ip, op], stderr=subprocess.PIPE, text=True, env=env), ip, op))
     res = {}
     for p, ip, op in procs:
         _, err = p.communicate()
